@@ -17,6 +17,7 @@ func checkC18(p *Program, r *Report) {
 	r.Explain("C18: output bytes and process exit are runtime facts; the mapping from the library's verdict to the exit code is structural and decided on the SSA of package main. " +
 		"R1 in the non-interactive runner every return of 0 is reachable only when the error returned by vm.Execute is nil; the non-nil edge returns 4 after exactly one print call that includes the error; every other error-returning call in the runner (reading the file) has its error tested and its failure edge returns 2; main hands the runner's result to os.Exit unchanged. " +
 		"R2 vm.Execute is called once, with nil options, on the environment that the setup function created, in which it defined args and to which it applied core.Import; package main links the bundled packages (blank import). " +
+		"R5 one stream: no buffered handle on os.Stdout exists in the command, the builtins or the interpreter, or else every direct write and every os.Exit of package main comes after a Flush with no script execution in between (a diagnostic cannot overtake the script's output, no output is lost at exit). " +
 		"R3 script arguments are the arguments after the file name, taken only when a file name is present.")
 	r.Assume("behaviour of the built binary as a process and the bytes a script prints are not decided")
 	sp := p.SSAPkg("")
@@ -25,6 +26,7 @@ func checkC18(p *Program, r *Report) {
 		r.Undecided("C18.R1", "main", "anko.go", "package main not loaded")
 		return
 	}
+	c18OneStream(p, r, sp)
 	vmSp := p.SSAPkg("vm")
 	var execFn *ssa.Function
 	if vmSp != nil {
@@ -171,6 +173,9 @@ func checkC18(p *Program, r *Report) {
 			res := sig.Results()
 			if res.Len() == 0 || !isErrorType(res.At(res.Len()-1).Type()) {
 				continue
+			}
+			if res.Len() == 1 {
+				continue // an error-only call (Flush, Close) yields nothing the script text could be made from
 			}
 			if o := calleeObj(c); o != nil && o.Pkg() != nil && o.Pkg().Path() == "fmt" {
 				continue
